@@ -79,6 +79,37 @@ def global_reads(cls, meth, globs):
     return sorted(set(out))
 
 
+def raw_divisions_calls():
+    """(class, method, receiver) for every call `<receiver>._divisions()` in dask_expr/** whose receiver is not self / super():
+    `_divisions()` of a partition-filtered expression returns the divisions of the WHOLE source (only the `divisions`
+    property applies the selection), so such a call is right only where the unfiltered divisions are wanted."""
+    import dask_expr
+    root = os.path.dirname(dask_expr.__file__)
+    out = []
+    for dp, dn, fn in os.walk(root):
+        if "tests" in dp:
+            continue
+        for f in sorted(fn):
+            if not f.endswith(".py"):
+                continue
+            tree = ast.parse(open(os.path.join(dp, f)).read())
+            def scan(owner, fnode):
+                for node in ast.walk(fnode):
+                    if isinstance(node, ast.Call) and isinstance(node.func, ast.Attribute) and node.func.attr == "_divisions":
+                        r = ast.unparse(node.func.value)
+                        if r not in ("self", "super()"):
+                            out.append((owner, fnode.name, r))
+            for node in tree.body:
+                if isinstance(node, (ast.FunctionDef, ast.AsyncFunctionDef)):
+                    scan("<module %s>" % f, node)
+            for cls in ast.walk(tree):
+                if isinstance(cls, ast.ClassDef):
+                    for meth in cls.body:
+                        if isinstance(meth, (ast.FunctionDef, ast.AsyncFunctionDef)):
+                            scan(cls.name, meth)
+    return sorted(set(out))
+
+
 def head_of(cls):
     from dask.utils import funcname
     from dask_expr._expr import Blockwise
@@ -150,6 +181,10 @@ def main():
             "true" if getattr(c, "_is_length_preserving", False) else "false",
             "true" if issubclass(c, Elemwise) else "false", "true" if issubclass(c, Blockwise) else "false",
             "; ".join(coq_str(d) for d in defines), "; ".join("(%s, %s)" % (coq_str(a), coq_str(b)) for a, b in reads)))
+    raws = raw_divisions_calls()
+    lines.append("Definition raw_divisions_calls : list (string * (string * string)) := [")
+    lines.append(";\n".join("  (%s, (%s, %s))" % (coq_str(a), coq_str(b), coq_str(c)) for a, b, c in raws))
+    lines.append("].\n")
     lines.append("Definition class_table : list class_info := [")
     lines.append(";\n".join(rows))
     lines.append("].")
